@@ -46,20 +46,24 @@ def stepFamilies (st : St) (cmd : List String) (got : String) : St × Verdict :=
   | none =>
   match stepL2Par st cmd got with
   | some r => r
+  | none =>
+  match stepL2Ser64 st cmd got with
+  | some r => r
   | none => (st, if got.startsWith "skip" then none else some "skip")
 
 /-- plane-level BSI tracking runs alongside the command families: the extra checks use the state BEFORE the line -/
 def stepAll (st : St) (cmd : List String) (got : String) : St × Verdict :=
   let extra := checkBsiL2 st cmd got
+  let extraS64 := checkSer64L2 st cmd got
   let (l2it', extraIt) := shadowIterL2 st cmd got
   let (st', v) := if cmd.head? == some "bplanes" then (st, (none : Verdict)) else stepFamilies st cmd got
   let st'' := trackBsiL2 st' cmd
-  ({ st'' with l2it := l2it' }, match v with | some m => some m | none => (match extra with | some m => some m | none => extraIt))
+  ({ st'' with l2it := l2it' }, match v with | some m => some m | none => (match extra with | some m => some m | none => (match extraIt with | some m => some m | none => extraS64)))
 
 def pureQueries : List String :=
   ["card", "empty", "has", "min", "max", "rank", "sel", "cir", "iwi", "eq", "toarr", "toexarr", "nv", "pv", "nav", "pav",
    "andcard", "orcard", "isect", "wf", "size", "ser", "rd", "wrfail", "wrfailall", "rdsplit", "trunc", "chkeq", "dump", "dig", "kern", "kernwf", "popcnt", "dense", "densechk", "safe", "zdetach", "zsame", "frz", "frzsmall", "frzwfail", "fchk", "fgc",
-   "sermany64", "sched", "concdec", "concagg", "bplanes", "hasnext", "peek?", "peek!", "iterate", "values", "backward", "unset", "ranges", "l2lazy", "l2dense"]
+   "sermany64", "sched", "concdec", "concagg", "bplanes", "hasnext", "peek?", "peek!", "iterate", "values", "backward", "unset", "ranges", "l2lazy", "l2dense", "l2ser64"]
 
 def aggOps : List String := ["fastor", "fastand", "heapor", "heapxor", "paror", "parand", "parheapor", "andany"]
 
